@@ -2,7 +2,7 @@
 import re
 
 from ..core import AnalysisError
-from ..cxxlib import (LaneEval, expect_lanes, lanes_src, type_width, nows, is_ref, stmts_of, counted_loop,
+from ..cxxlib import (nstmts, single_assignment_locals, guards_at, failure_returns_false, LaneEval, expect_lanes, lanes_src, type_width, nows, is_ref, stmts_of, counted_loop,
                       lane_resize, int_value, if_parts, T as TOP)
 
 UNSIGNED_OF = {'short': 'unsigned short', 'int': 'unsigned int', 'long': 'unsigned long', 'float': 'unsigned int',
@@ -186,13 +186,23 @@ def f5_swap(ctx, L):
             pname = f.params[0][0]
             state = lanes_src(w)
             ok, why = True, ''
+            locals_ = {}
             for s in stmts:
+                if s.kind == 'DeclStmt' and len(s.kids) == 1 and s.kids[0].kind == 'VarDecl' and s.kids[0].kids \
+                        and (s.kids[0].type or '').startswith('const '):
+                    # an intermediate value named by a const local: evaluated here, with the lanes `*in` has at this point
+                    env = dict(locals_)
+                    env['*' + pname] = state
+                    locals_[s.kids[0].name] = lane_resize(LaneEval(env).ev(s.kids[0].kids[-1]), type_width(s.kids[0].type) or w)
+                    continue
                 b = s.bin
                 tgt = b[1].strip() if b else None
                 if not b or b[0] != '=' or tgt.kind != 'UnaryOperator' or tgt.opcode != '*' or not is_ref(tgt.kids[0], pname):
                     ok, why = False, 'statement is not `*in = ...`: ' + s.text
                     break
-                ev = LaneEval({'*' + pname: state})
+                env = dict(locals_)
+                env['*' + pname] = state
+                ev = LaneEval(env)
                 state = lane_resize(ev.ev(b[2]), w)
             wantl = expect_lanes(w, 'big')
             if ok and state != wantl:
@@ -286,32 +296,92 @@ def optional_codec_cxx(ctx, L):
     L.check('uint32_tdisc;if(!do_decode<E>(disc,pos,end)){returnfalse;}' in dt, 'F1cxx.optional-steps',
             'do_decode(optional)|flag', d.site(), 'the presence flag must be decoded first as a checked uint32_t in byte '
             'order E', d.body.text[:160])
-    # gap: both sides test `A > sizeof(uint32_t)` and skip `A - sizeof(uint32_t)`
-    for f, label, skip in ((e, 'do_encode(optional)', 'data=data+%s-sizeof(uint32_t);'),
-                           (d, 'do_decode(optional)', 'if(!do_decode_advance(%s-sizeof(uint32_t),pos,end)){returnfalse;}')):
-        ifs = [i for i in f.body.find('IfStmt') if 'sizeof(uint32_t)' in nows(if_parts(i)[0].text)
-               and nows(if_parts(i)[0].text).endswith('>sizeof(uint32_t)')]
-        if len(ifs) != 1:
-            L.bad('F1cxx.optional-steps', label + '|gap', f.site(), 'no `if (alignment > sizeof(uint32_t))` gap step between '
-                  'flag and value', f.body.text[:200])
-            continue
-        cond, then, _ = if_parts(ifs[0])
-        a = nows(cond.text)[:-len('>sizeof(uint32_t)')]
-        L.check(nows(then.text) == '{' + (skip % a) + '}', 'F1cxx.optional-steps', label + '|gap', f.site(ifs[0]),
-                'the gap must skip exactly alignment - sizeof(uint32_t) bytes (checked on decode)', then.text)
-        # C03-(g): wire alignment must not come from the ABI alignment of a composite
-        L.check(a != 'alignment<T>::value', 'C03g.wire-alignment-source', label + '|' + a, f.site(ifs[0]),
+    # gap: both sides skip `A - sizeof(uint32_t)` exactly when `A > sizeof(uint32_t)` (guards are read in atomic form, so a
+    # nested `if` and an `&&` in one condition are the same thing)
+    def gap_guard(node, f):
+        for c, pol, kind in guards_at(node, f.body):
+            t = nows(c.strip().text)
+            if pol is True and t.endswith('>sizeof(uint32_t)'):
+                return t[:-len('>sizeof(uint32_t)')]
+            if pol is True and t.startswith('sizeof(uint32_t)<'):
+                return t[len('sizeof(uint32_t)<'):]
+        return None
+    # encode: data = data + A - sizeof(uint32_t)
+    skips = [a for a in e.body.find(('BinaryOperator', 'CompoundAssignOperator')) if a.opcode in ('=', '+=') and is_ref(a.kids[0], data)
+             and 'sizeof(uint32_t)' in nows(a.kids[1].text) and 'do_encode' not in nows(a.kids[1].text)]
+    a_enc = gap_guard(skips[0], e) if len(skips) == 1 else None
+    if a_enc is None:
+        L.bad('F1cxx.optional-steps', 'do_encode(optional)|gap', e.site(), 'no `if (alignment > sizeof(uint32_t))` gap step between '
+              'flag and value', e.body.text[:200])
+    else:
+        rhs = nows(skips[0].kids[1].text)
+        L.check(rhs in ('%s+%s-sizeof(uint32_t)' % (data, a_enc), '%s-sizeof(uint32_t)' % a_enc) and
+                (skips[0].opcode == '+=') == (not rhs.startswith(data + '+')), 'F1cxx.optional-steps', 'do_encode(optional)|gap', e.site(skips[0]),
+                'the gap must skip exactly alignment - sizeof(uint32_t) bytes', skips[0].text)
+        L.check(a_enc != 'alignment<T>::value', 'C03g.wire-alignment-source', 'do_encode(optional)|' + a_enc, e.site(skips[0]),
                 'the flag-to-value gap is derived from alignment<T>::value, the ABI alignment of the C++ object: for a '
                 'generated composite T holding a std::vector (alignment 8) whose wire alignment is 4 a 4-byte gap is '
-                'inserted that the format does not have', cond.text)
-    # value / skip
-    L.check(et.endswith('if(x){returndo_encode<E>(%s,*x);}return%s+codec_traits<T>::size;}' % (data, data)),
+                'inserted that the format does not have', skips[0].text)
+    # decode: do_decode_advance(A - sizeof(uint32_t), pos, end), a failure returns false
+    advs = [c for c in d.body.find('CallExpr') if c.kids and nows(c.kids[0].text) == 'do_decode_advance' and len(c.kids) == 4
+            and 'sizeof(uint32_t)' in nows(c.kids[1].text)]
+    a_dec = gap_guard(advs[0], d) if len(advs) == 1 else None
+    if a_dec is None:
+        L.bad('F1cxx.optional-steps', 'do_decode(optional)|gap', d.site(), 'no `if (alignment > sizeof(uint32_t))` gap step between '
+              'flag and value', d.body.text[:200])
+    else:
+        L.check(nows(advs[0].kids[1].text) == '%s-sizeof(uint32_t)' % a_dec and nows(advs[0].kids[2].text) == 'pos' and nows(advs[0].kids[3].text) == 'end'
+                and failure_returns_false(advs[0], d.body), 'F1cxx.optional-steps', 'do_decode(optional)|gap', d.site(advs[0]),
+                'the gap must skip exactly alignment - sizeof(uint32_t) bytes (checked on decode)', advs[0].text)
+        L.check(a_dec != 'alignment<T>::value', 'C03g.wire-alignment-source', 'do_decode(optional)|' + a_dec, d.site(advs[0]),
+                'the flag-to-value gap is derived from alignment<T>::value, the ABI alignment of the C++ object: for a '
+                'generated composite T holding a std::vector (alignment 8) whose wire alignment is 4 a 4-byte gap is '
+                'inserted that the format does not have', advs[0].text)
+
+    # order and completeness: the gap step runs for present and absent values alike (before either value return, not under a
+    # test of the flag), and the functions call nothing but the codec steps named above
+    def top_index(f, node):
+        for i, st in enumerate(stmts_of(f.body)):
+            if any(x is node for x in st.walk()):
+                return i
+        return -1
+    for f, label, step, flag, allowed in (
+            (e, 'do_encode(optional)', skips[0] if len(skips) == 1 else None, 'x', ('do_encode<E>',)),
+            (d, 'do_decode(optional)', advs[0] if len(advs) == 1 else None, 'disc',
+             ('do_decode<E>', 'do_decode_advance', 'decoder<E,T>::decode'))):
+        if step is None:
+            continue
+        vrets = [r for r in f.body.find('ReturnStmt') if r.kids and nows(r.kids[0].text) != 'false']
+        L.check(all(top_index(f, step) < top_index(f, r) for r in vrets) and
+                not any(nows(c.strip().text) == flag for c, pol, kind in guards_at(step, f.body)),
+                'F1cxx.optional-steps', label + '|gap-first', f.site(step),
+                'the flag-to-value gap is part of the slot whether or not a value is present: it must be skipped before the value is '
+                'encoded / decoded *and* before an absent value\'s static size is skipped', f.body.text[:300])
+        others = [nows(c.kids[0].text) for c in f.body.find('CallExpr') if c.kids and nows(c.kids[0].text) not in allowed]
+        L.check(not others, 'F1cxx.optional-steps', label + '|only-codec-steps', f.site(),
+                'the optional codec performs only the flag / gap / value steps (anything else reads or writes bytes the format does not '
+                'define): %s' % ', '.join(others), ', '.join(others))
+    # value / skip: what each `return` yields under what is known about the flag there
+    def returns_under(f, flag):
+        out = {}
+        for r in f.body.find('ReturnStmt'):
+            if not r.kids:
+                continue
+            pols = [pol for c, pol, kind in guards_at(r, f.body) if nows(c.strip().text) == flag]
+            v = nows(r.kids[0].text)
+            if v == 'false':
+                continue
+            out.setdefault(tuple(sorted(set(pols))), []).append(v)
+        return out
+    ru = returns_under(e, 'x')
+    L.check(ru == {(True,): ['do_encode<E>(%s,*x)' % data], (False,): ['%s+codec_traits<T>::size' % data]},
             'F1cxx.optional-steps', 'do_encode(optional)|value', e.site(),
-            'present: encode the value; absent: skip the static size of T', e.body.text[-120:])
+            'present: encode the value; absent: skip the static size of T', str(ru))
+    ru = returns_under(d, 'disc')
     L.check('x=disc?optional<T>(T()):optional<T>();' in dt and
-            dt.endswith('if(disc){returndecoder<E,T>::decode(*x,pos,end);}returndo_decode_advance(codec_traits<T>::size,pos,end);}'),
+            ru == {(True,): ['decoder<E,T>::decode(*x,pos,end)'], (False,): ['do_decode_advance(codec_traits<T>::size,pos,end)']},
             'F1cxx.optional-steps', 'do_decode(optional)|value', d.site(),
-            'present: decode the value in place; absent: checked skip of the static size of T', d.body.text[-160:])
+            'present: decode the value in place; absent: checked skip of the static size of T', str(ru))
 
 
 def f3_cxx(ctx, L):
@@ -359,13 +429,13 @@ def f2_cxx_zero_vector(ctx, L):
     f = fs[0]
     decls = [d for d in f.body.find('VarDecl') if 'vector<uint8_t>' in nows(d.type or '')]
     ok = len(decls) == 1 and decls[0].kids and \
-        nows(decls[0].text).endswith('(static_cast<constT*>(this)->get_byte_size())')
+        decls[0].ntext.endswith('(static_cast<constT*>(this)->get_byte_size())')
     L.check(ok, 'F2cxx.vector-sized-by-get_byte_size', f.key(), f.site(),
             'the result vector must be constructed with exactly get_byte_size() value-initialised (zero) bytes',
             decls[0].text if decls else f.body.text)
     name = decls[0].name if decls else 'data'
     t = nows(f.body.text)
-    L.check(('message_impl<T>::templateencode<E>(*static_cast<constT*>(this),%s.data());return%s;}' % (name, name)) in t,
+    L.check(nstmts(f.body)[-2:] == ['message_impl<T>::templateencode<E>(*static_cast<constT*>(this),%s.data())' % name, 'return%s' % name],
             'F2cxx.vector-sized-by-get_byte_size', f.key() + '|encode-into', f.site(),
             'the message must be encoded into that vector, which is then returned unchanged', f.body.text)
     mem = [x for x in ('resize', 'push_back', 'insert', 'assign', 'reserve', 'new', 'malloc', 'memset') if x + '(' in t]
@@ -375,8 +445,10 @@ def f2_cxx_zero_vector(ctx, L):
     if len(ps) != 1:
         raise AnalysisError('anchor vanished: message::encode<E>(void*)')
     g = ps[0]
-    gt = nows(g.body.text)
-    L.check('uint8_t*end=message_impl<T>::templateencode<E>(*static_cast<constT*>(this),pos);returnend-pos;}' in gt,
+    # (locals bound once and handed over by value stand for their initialisers)
+    gt = nstmts(g.body, single_assignment_locals(g.body))
+    arg = 'static_cast<uint8_t*>(%s)' % g.params[0][0]
+    L.check(gt == ['return(message_impl<T>::templateencode<E>(*static_cast<constT*>(this),%s))-(%s)' % (arg, arg)],
             'C05d.pointer-api-returns-written', g.key(), g.site(),
             'encode<E>(void*) must return the distance between the returned end pointer and the start', g.body.text)
 
